@@ -100,7 +100,10 @@ def c_cmp_unbound_captured(prog, r):
   cands = []
   for caller in derived(prog):
     for rule in caller['rules']:
-      callees = [p for p in preds_used(rule.get('body'), set()) if p != caller['name'] and any(d['name'] == p for d in derived(prog))]
+      # the callee must be needed for the caller's rows: an atom at the top level of the body (a call inside an
+      # aggregating expression whose value is not used is dropped by the compiler together with the callee)
+      top = [it[1][1] for it in body_items(rule) if it[0] == 'c' and it[1][0] == 'atom']
+      callees = [p for p in top if p != caller['name'] and any(d['name'] == p for d in derived(prog))]
       if not callees:
         continue
       # int variables of the caller's rule: arguments at int columns of body atoms
